@@ -19,6 +19,7 @@ EXPLANATION = (
     "node keys in the queue are assumed non-zero; W7 ConstraintAD.add: the inference 'the weights sum to one, hence the single head not known false is "
     "true' scans exactly the heads whose weights were summed (the head being added and the heads already in the group); W8 in propagate the current value of a child literal c is current.get(abs(c), abs(c)), negated "
     "when c is negative (folded for a positive and a negative literal: the key is the node id, an undetermined child stands for the literal itself)."
+    " Added after seed round 6: W9 a waiting parent is re-queued by LogicFormula.propagate with its own recorded value (table over current[parent])."
 )
 TECHNIQUE = "static analysis: path-wise decision-table extraction of the option/evidence wiring"
 LEVEL_TEXT = EXPLANATION
